@@ -74,6 +74,8 @@ func (x *Exec) specLoad(env *Env, p *Pointer) Val {
 	var term string
 	if p.Rows {
 		term = sx("select", sx("select", h, p.Root), p.Idx)
+	} else if p.Enc {
+		term = x.encCell(p, func(key, sort string) string { return x.heapFor(env, key, sort) })
 	} else {
 		term = sx("select", h, p.Root)
 	}
@@ -797,6 +799,17 @@ func (x *Exec) evalCall(e *Expr, env *Env) Val {
 		}
 		op := map[string]string{"fpeq": "fp.eq", "fplt": "fp.lt", "fpgt": "fp.gt", "fple": "fp.leq", "fpge": "fp.geq"}[e.Name]
 		return specBool(sx(op, fpTerm(as[0], w), fpTerm(as[1], w)))
+	case "cbran":
+		// cbran(f): the callback parameter f was called on this path
+		if env.st.ghost["cbran:"+e.Args[0].Name] == "true" {
+			return specBool("true")
+		}
+		return specBool("false")
+	case "cbret":
+		if t, ok := env.st.ghost["cbret:"+e.Args[0].Name]; ok {
+			return Val{K: KErr, T: t, Typ: types.Universe.Lookup("error").Type()}
+		}
+		return Val{K: KErr, T: "ErrNil", Typ: types.Universe.Lookup("error").Type()}
 	case "mention":
 		// mention(e): true; places the term e in the obligation so that ground definitions unfold at it
 		a := args()[0]
